@@ -69,6 +69,7 @@ class Mon(Monitor):
     def at_end(self, w):
         out = []
         if not getattr(w, 'drain_complete', True):
+            self.see('drain-capped-before-horizon')
             return out
         for (kind, ci, ri, dt) in w.timers():
             c = None if ci is None else w.conns[ci]
